@@ -11,7 +11,12 @@ S2C : the same lattices (constants parsed from the very .cfg files TLC ran; the 
 C2S : every call is one record {ranges, addresses, total, iterations, raised}; AllocTrace.tla evaluates the
       operators of Alloc.tla on it (batches of thousands of records per TLC run, several runs in parallel).
       An exception from an allocator is a violation of Terminates.  Transcription-vs-code differences on the
-      deterministic allocators are reported as drift in the evidence file, never as violations.
+      deterministic allocators are reported as drift in the evidence file, never as violations.  The hill-climb
+      transcription is compared with the code step by step (AllocHillClimbTrace.tla: every ordering the real RNG
+      produced must be one the transcription admits, every re-allocation size must agree, a ValueError only where
+      the transcription predicts a one-element turn_list) - again drift only.
+Controls: corrupted records must be rejected with the clause they break (every run); thorough: the transcription of
+      the code as written (Guarded = FALSE) must reach the ValueError on the D10 input, the guarded one must not.
 """
 import hashlib
 import itertools
